@@ -37,7 +37,10 @@ class Table:
         self.lat = np.array([-60.0 + r * 0.5 for r in range(n)])
         self.lon = np.array([10.0 + r * 0.25 for r in range(n)])
         self.time_unit = time_unit
-        self.time = np.array(self.secs, dtype="int64").astype("datetime64[s]").astype(f"datetime64[{time_unit}]")
+        if all(float(v) == int(v) for v in self.secs):
+            self.time = np.array(self.secs, dtype="int64").astype("datetime64[s]").astype(f"datetime64[{time_unit}]")
+        else:  # instants with a fractional second: nanosecond stamps
+            self.time = np.array([us(v) * 1000 for v in self.secs], dtype="int64").astype("datetime64[ns]")
 
     def describe(self):
         d = {"n": self.n, "streams": self.streams,
@@ -67,6 +70,9 @@ def ts(sec, how="timestamp"):
         return None
     if how.startswith("aware:"):  # the same instant as a tz-aware stamp in the named zone
         return pd.Timestamp(int(round(sec * 1000)), unit="ms", tz="UTC").tz_convert(how[6:])
+    if sec != int(sec) and -2 ** 33 < sec < 2 ** 33:
+        tsx = pd.Timestamp(us(sec) * 1000, unit="ns")  # fractional seconds, to the microsecond
+        return tsx if how in ("timestamp", "dt64") else tsx.to_pydatetime() if how == "datetime" else tsx.isoformat()
     if sec != int(sec) or not (-2 ** 33 < sec < 2 ** 33):
         tsx = pd.Timestamp(int(round(sec * 1000)), unit="ms")  # fractional seconds / far dates
         return tsx if how in ("timestamp", "dt64") else tsx.to_pydatetime() if how == "datetime" else tsx.isoformat()
@@ -95,15 +101,28 @@ def _a(v):
     return np.asarray(v)
 
 
+def us(sec):
+    """epoch seconds (int / float, exact) -> whole microseconds"""
+    from fractions import Fraction
+
+    return int(sec) * 10 ** 6 if isinstance(sec, (int, np.integer)) else int(round(Fraction(float(sec)) * 10 ** 6))
+
+
 def _times_to_secs(v):
+    """what a test was handed as time input, as whole microseconds since the epoch (sub-second instants are instants too)"""
     if v is None:
         return None
     a = _a(v)
     if a.dtype.kind == "M":
-        return a.astype("datetime64[s]").astype("int64").tolist()
+        unit = np.datetime_data(a.dtype)[0]
+        if unit in ("s", "m", "h", "D"):
+            return [int(x) * 10 ** 6 for x in a.astype("datetime64[s]").astype("int64").tolist()]
+        if unit == "ms":
+            return [int(x) * 1000 for x in a.astype("int64").tolist()]
+        return a.astype("datetime64[us]").astype("int64").tolist()
     if a.dtype.kind in "iuf":
-        return [int(x) for x in a.tolist()]
-    return [int(pd.Timestamp(x).timestamp()) for x in a.tolist()]
+        return [us(x) for x in a.tolist()]
+    return [int(pd.Timestamp(x).value // 1000) for x in a.tolist()]
 
 
 def install_probes():
@@ -359,6 +378,8 @@ def build_config(contexts, how="timestamp"):
         w = window_dict(c["window"], how)
         if w is not None:
             d["window"] = w
+        if c.get("region") is not None:
+            d["region"] = c["region"]  # GeoJSON; the stream front ends document that a region selects nothing yet
         for sid, tests in c["streams"].items():
             for module, test, kwargs in tests:
                 d["streams"].setdefault(sid, {}).setdefault(module, {})[test] = dict(kwargs)
@@ -459,6 +480,30 @@ def aggregate_workload(ctx, runs) -> None:
                               {"kind": "aggregate-run", "table": tb.describe(), "contexts": core.jsonable(contexts),
                                "error": repr(e)[:300]})
                 continue
+            if rng.random() < 0.4:
+                # history: a further result arrives after the roll-up was taken and the roll-up is taken again under the
+                # same name: the roll-up result the store now holds last covers every result it holds
+                try:
+                    from ioos_qc.qartod import aggregate as _agg  # noqa: PLC0415
+                    from ioos_qc.results import CollectedResult  # noqa: PLC0415
+                    import ioos_qc.qartod as _q  # noqa: PLC0415
+
+                    late = np.ma.array([rng.choice([1, 3, 4, 2]) for _ in range(n)], dtype="uint8")
+                    store.collected_results.append(CollectedResult(stream_id="v1", package="qartod", test="flat_line_test",
+                                                                   function=_q.flat_line_test, results=late))
+                    store.compute_aggregate(name="rollup")
+                    rolls = [c for c in store.collected_results if c.function is _agg and c.test == "rollup"]
+                    others = [c for c in store.collected_results if c.function is not _agg]
+                    vec_o = [[None if np.ma.getmaskarray(c.results)[i] else int(np.ma.getdata(c.results)[i]) for i in range(n)] for c in others]
+                    want_r = models.compare(vec_o)
+                    got_r = np.ma.getdata(rolls[-1].results).astype(int).tolist() if rolls else None
+                    ctx.count("aggregate.rollup_retaken_after_a_late_result")
+                    if got_r != want_r:
+                        ctx.violation("C04:rollup-retaken-after-a-late-result",
+                                      {"kind": "aggregate-run", "table": tb.describe(), "contexts": core.jsonable(contexts), "late_result": late.tolist(),
+                                       "expected_latest_rollup": want_r, "observed_latest_rollup": got_r, "rollup_results_held": len(rolls)})
+                except Exception as e:  # noqa: BLE001
+                    ctx.violation(f"C04:rollup-retaken:raised:{type(e).__name__}", {"kind": "aggregate-run", "error": repr(e)[:300]})
             vectors = []
             for cr in collected:
                 data, mask = np.ma.getdata(cr.results), np.ma.getmaskarray(cr.results)
